@@ -1,13 +1,14 @@
 //! Random walks over the public operations (the "histories" stream).
 use crate::ctx::Ctx;
 use crate::gen::*;
+use bc_components::DigestProvider;
 
 /// apply one random operation to the envelope in `cur`; returns the register holding the
 /// result (which may hold an error)
 pub fn random_op(c: &mut Ctx, cur: &str, cfg: &GenCfg) -> String {
     let e = match c.env(cur) { Some(e) => e, None => return cur.to_string() };
     let nas = e.assertions().len();
-    match c.rng.below(33) {
+    match c.rng.below(34) {
         0 | 1 | 2 => { let a = gen_assertion(c, cfg, 1); c.assign(&format!("add {} {}", cur, a)) }
         3 => {
             // add a duplicate of an assertion already there
@@ -86,6 +87,18 @@ pub fn random_op(c: &mut Ctx, cur: &str, cfg: &GenCfg) -> String {
             let md = c.assign(&format!("misdeclare {} {} {} {}", subj, other, KEY1, n));
             let r = c.assign(&format!("replace_subject {} {}", cur, md));
             c.count("hist:misdeclared-subject"); c.assign(&format!("decrypt_subject {} {}", r, KEY1))
+        }
+        33 => {
+            // an encrypted element made outside the library: only one whose additional data is a tagged digest may be admitted
+            let d = e.subject().digest().data().to_vec();
+            let mut tagged = vec![0xd9, 0x9c, 0x41, 0x58, 0x20]; tagged.extend_from_slice(&d);
+            let mut untagged = vec![0x58, 0x20]; untagged.extend_from_slice(&d);
+            let aad = match c.rng.below(7) { 0 => "-".to_string(), 1 => hex::encode(&d), 2 => hex::encode(&untagged), 3 => hex::encode(&tagged[..20]), 4 => "00".to_string(), 5 => { let mut t = tagged.clone(); t.push(0); hex::encode(t) } _ => hex::encode(&tagged) };
+            let ct = hex::encode(c.rng.bytes(5));
+            let f = c.assign(&format!("foreign_enc {} {}", ct, aad));
+            c.count("hist:foreign-encrypted");
+            if c.is_ok(&f) { if c.rng.chance(1, 2) { c.assign(&format!("replace_subject {} {}", cur, f)) } else { let p = gen_leaf(c, cfg); let a = c.assign(&format!("assertion {} {}", p, f)); c.assign(&format!("add {} {}", cur, a)) } }
+            else { cur.to_string() }
         }
         _ => {
             // the same for compression
